@@ -92,11 +92,23 @@ def _nospace_end(s):
 def case(d):
     p = family.member_of(d, prefer=("K01", "K02", "K03"))
     sp = spans(p)
+    forced = None
+    if sp and d.bool(0.4):
+        # make sure something is reported AFTER a literal/comment on its own line (a trailing blank: the diagnostic sits at
+        # the end of the line), so that a column that depends on the replaced text becomes visible
+        j = d.int(0, len(sp) - 1)
+        i = sp[j][0]
+        from ..prog import SP as _SP
+        if p.lines[i].kind not in ("comment", "define", "include") and p.lines[i].lex and p.lines[i].lex[-1].k != "cmt":
+            p = p.copy()
+            p.variant = ("trailing-blank-after-literal", p.lines[i].kind, i)
+            p.lines[i].lex.append(_SP())
+            forced = j
     q = p.copy()
     chosen = []
     if sp:
         n = d.int(1, min(3, len(sp)))
-        idxs = sorted({d.int(0, len(sp) - 1) for _ in range(n)})
+        idxs = sorted({d.int(0, len(sp) - 1) for _ in range(n)} | ({forced} if forced is not None else set()))
         for j in idxs:
             i, k, kind = sp[j]
             new = replace(d, q.lines[i].lex[k], kind)
